@@ -12,8 +12,9 @@ pub uninterp spec fn uring_init_failure(e: IoError) -> bool;
 pub fn is_uring_init_failure(e: &IoError) -> (r: bool) ensures r == uring_init_failure(*e) { unimplemented!() }
 
 // Writer::submit_batch_via_io_uring seen from batch_write: phase 3 (completion check, rollback, publication of the offset)
-// is proved in unit batch_complete; phases 1-2 (building the buffers with the same header layout as Block::write and pushing
-// one write per plan element) are ASSUMED here.
+// is proved in unit batch_complete, phases 1-2 (building the buffers with the same header layout as Block::write and pushing
+// one write per plan element) in unit batch_submit; what is ASSUMED here is their composition (A-URING: a completed write puts
+// its buffer at its offset).
 #[verifier::external_body]
 pub fn submit_batch_via_io_uring_h(col: &str, sys: &mut Sys, g: &mut GlobalsW, Ghost(s0): Ghost<Sys>, write_plan: &Vec<(Block, u64, usize)>, batch: &[&[u8]], revert_info: &mut BatchRevertInfo,
                                    cur_offset: &mut u64, planning_offset: u64, total_bytes: usize) -> (ret: IoResult<()>)
